@@ -116,8 +116,10 @@ impl Net {
         id
     }
 
-    fn uninstall_rule(&mut self, id: RuleId) {
-        self.rules.shift_remove(&id);
+    /// Returns the removed rule so the caller can drop it outside of
+    /// the `CURRENT` borrow: a rule's state may own other `RuleGuard`s.
+    fn uninstall_rule(&mut self, id: RuleId) -> Option<Box<dyn Rule>> {
+        self.rules.shift_remove(&id)
     }
 
     /// Walk the installed rules in insertion order; first non-`Pass`
@@ -225,7 +227,10 @@ impl EnterGuard {
 
 impl Drop for EnterGuard {
     fn drop(&mut self) {
-        CURRENT.with(|c| *c.borrow_mut() = None);
+        // Take the `Net` out first and drop it with the slot released:
+        // rules may own `RuleGuard`s, whose drop re-enters `CURRENT`.
+        let net = CURRENT.with(|c| c.borrow_mut().take());
+        drop(net);
     }
 }
 
@@ -289,13 +294,16 @@ fn install_rule(r: Box<dyn Rule>) -> RuleId {
 }
 
 fn uninstall_rule(id: RuleId) {
-    CURRENT.with(|c| {
-        // Tolerant of the Net already being gone — drop order during
-        // teardown isn't guaranteed.
-        if let Some(net) = c.borrow_mut().as_mut() {
-            net.uninstall_rule(id);
-        }
+    // Tolerant of the Net already being gone — drop order during
+    // teardown isn't guaranteed.
+    let removed = CURRENT.with(|c| {
+        c.borrow_mut()
+            .as_mut()
+            .and_then(|net| net.uninstall_rule(id))
     });
+    // Dropped with the borrow released: the rule may own the guard of
+    // another rule, whose drop uninstalls in turn.
+    drop(removed);
 }
 
 /// Snapshot a host's socket table, Linux `netstat`-style. `host`
